@@ -312,6 +312,16 @@ fn main() {
         let (a, b, t) = gen_pair(&mut rng, len);
         pairs.push((a, b, t.replace("style=", "style=long_")));
     }
+    // non-dyadic values (k/7, k/10): the running sums carry rounding residue, so a window that is constant in one series has a
+    // tiny non-zero variance instead of an exact 0 - the EPS guards of cov / corr are what keeps the result null there (seed
+    // C04-5 replaced the two guards by one on the product).  cov / corr only: the regression families keep dyadic data, their
+    // singular windows are decided in exact arithmetic (DESIGN 5.6).
+    for i in 0..(if thorough { 300 } else { 70 }) {
+        let len = if i % 3 == 0 { rng.range(3, 8) } else { rng.range(3, 24) } as usize;
+        let (a, b, t) = gen_pair(&mut rng, len);
+        let q = *rng.pick(&[4.0 / 7.0, 4.0 / 10.0, 8.0 / 7.0]);
+        pairs.push((a.iter().map(|x| x * q).collect(), b.iter().map(|x| x * q).collect(), t.replace("style=", "style=nondyadic_")));
+    }
     for (pi, (a, b, stags)) in pairs.iter().enumerate() {
         let len = a.len();
         let small = stags.contains("exhaustive");
@@ -332,6 +342,7 @@ fn main() {
                 } else if !rng.chance(1, 2) {
                     continue;
                 }
+                if fi > 1 && stags.contains("nondyadic") { continue; }
                 let fi_ = fi as i32;
                 // tolerance relative to the magnitude of what enters the closed form (DESIGN 5.1)
                 let scale = match fi { 1 | 7 => 1.0, 0 | 4 => m * m, _ => m * (len.max(1) as f64) };
